@@ -24,7 +24,9 @@
 (* (POSTCONDITION on the diameter).                                         *)
 (*                                                                         *)
 (* Event fields (all present in every event, unused ones are 0 / "" / []):  *)
-(*   a     "new" "w" "ws" "fl" "tick" "restart" "crash" "flip" "cut" "junk" *)
+(*   a     "new" "w" "ws" "wt" "wst" (head-size check inside the write:     *)
+(*         j = group write it came behind, n = head file size, t = what it  *)
+(*         did) "fl" "tick" "restart" "crash" "flip" "cut" "junk"           *)
 (*         "readall" "readfile" "search" "repair" "reset"                   *)
 (*   k h sz res     kind, marker height, payload bytes, result class        *)
 (*   n     "new": head size limit in bytes; "tick": size of the head file   *)
@@ -73,6 +75,9 @@ Step ==
      \/ Is("new")     /\ w' = Start(New(Ev.n), Ev.sz)
      \/ Is("w")       /\ LET r == Write(w, Ev.k, Ev.h, Ev.sz) IN r.res = Ev.res /\ w' = r.st
      \/ Is("ws")      /\ LET r == WriteSync(w, Ev.k, Ev.h, Ev.sz) IN r.res = Ev.res /\ w' = r.st
+     \/ (Is("wt") \/ Is("wst")) /\ Ev.res = "ok"
+                      /\ LET r == WriteTick(w, Ev.k, Ev.h, Ev.sz, Ev.j, Is("wst")) IN
+                           HeadDisk(r.mid) = Ev.n /\ r.tick = Ev.t /\ w' = r.st
      \/ Is("fl")      /\ w' = Flush(w)
      \/ Is("tick")    /\ HeadDisk(w) = Ev.n /\ LET r == Tick(w) IN r.res = Ev.res /\ w' = r.st
      \/ Is("restart") /\ w' = Start(Stop(w), Ev.sz)
@@ -91,10 +96,11 @@ Spec == Init /\ [][Next]_vars
 (* the property, on every state in which the real code was observed (the logs are big: *)
 (* evaluating it after every single write as well only costs time)                     *)
 Observed == l > 1 /\ Trace[l - 1].a \in {"readall", "repair"}
-Inv == Observed =>
+InvObs == Observed =>
        /\ OrderKept(w) /\ ReadExact(w) /\ FlipsReported(w) /\ RepairExact(w)
        /\ \A h \in SearchHs, ign \in BOOLEAN :
              LET R == SearchDP(w, h, ign) IN SoundOn(w, h, R) /\ CompleteOn(w, h, R)
+Inv == FilesStartAtFrame(w) /\ InvObs
 Accepted == IF TLCGet("stats").diameter - 1 = Len(Trace) THEN TRUE
             ELSE PrintT(<<"REJECTED: explained", TLCGet("stats").diameter - 1, "of", Len(Trace), "events">>) /\ FALSE
 ===============================================================================
